@@ -125,8 +125,14 @@ func (c *Ctx) dispatchOf(recv string, wantKinds bool) *tagSwitch {
 		if len(ts.cases) < 9 || recvTypeName(ts.fn) != recv {
 			continue
 		}
-		nk := len(kindsIn(ts.pkg.TypesInfo, ts.sw))
-		if wantKinds != (nk >= 8) {
+		// (the kinds a dispatcher talks about, in its clauses or in the helpers they call)
+		ks := map[string]bool{}
+		for _, cc := range ts.cases {
+			for k := range c.clauseKinds(ts, cc) {
+				ks[k] = true
+			}
+		}
+		if wantKinds != (len(ks) >= 8) {
 			continue
 		}
 		if best == nil || len(ts.cases) > len(best.cases) {
@@ -134,6 +140,18 @@ func (c *Ctx) dispatchOf(recv string, wantKinds bool) *tagSwitch {
 		}
 	}
 	return best
+}
+
+// clauseKinds: the reflect kinds mentioned by a clause of a dispatcher, including
+// the helpers of the module the clause hands its work to (decodeByte(val), ...).
+func (c *Ctx) clauseKinds(ts *tagSwitch, cc *ast.CaseClause) map[string]bool {
+	out := map[string]bool{}
+	for _, hb := range c.withHelpers(ts.pkg, cc, ts.decl, 2) {
+		for k := range kindsIn(hb.pk.TypesInfo, hb.node) {
+			out[k] = true
+		}
+	}
+	return out
 }
 
 // encoderDispatch: the encoder's full tag dispatch (whether or not its clauses mention kinds).
@@ -349,8 +367,55 @@ func (c *Ctx) encoderKindTable() (map[string]int64, map[int64]string, token.Pos,
 			}
 		}
 	}
+	if fd == nil || bestN < 10 {
+		// the table as data: a package-level map or array literal from reflect kinds to tag constants
+		table := map[string]int64{}
+		names := map[int64]string{}
+		var pos token.Pos
+		for _, f := range pk.Syntax {
+			for _, d := range f.Decls {
+				gd, ok := d.(*ast.GenDecl)
+				if !ok || gd.Tok != token.VAR {
+					continue
+				}
+				for _, sp := range gd.Specs {
+					vs, ok := sp.(*ast.ValueSpec)
+					if !ok {
+						continue
+					}
+					for _, v := range vs.Values {
+						cl, ok := ast.Unparen(v).(*ast.CompositeLit)
+						if !ok {
+							continue
+						}
+						t := map[string]int64{}
+						for _, el := range cl.Elts {
+							kv, ok := el.(*ast.KeyValueExpr)
+							if !ok {
+								continue
+							}
+							k, isKind := reflectKindName(pk.TypesInfo, kv.Key)
+							name, tv, isTag := tagConst(pk.TypesInfo, kv.Value)
+							if isKind && isTag {
+								if tv != 0 { // TagEnd marks "cannot be encoded"
+									t[k] = tv
+									names[tv] = name
+								}
+							}
+						}
+						if len(t) > len(table) {
+							table, pos = t, cl.Pos()
+						}
+					}
+				}
+			}
+		}
+		if len(table) >= 10 {
+			return table, names, pos, ""
+		}
+	}
 	if fd == nil {
-		return nil, nil, token.NoPos, "no kind->tag table function found in package nbt"
+		return nil, nil, token.NoPos, "no kind->tag table (switch or literal) found in package nbt"
 	}
 	table := map[string]int64{}
 	names := map[int64]string{}
@@ -424,7 +489,7 @@ func (c *Ctx) KindTables() []core.Ob {
 	}
 	accepted := map[int64]map[string]bool{}
 	for tv, cc := range dec.cases {
-		accepted[tv] = kindsIn(dec.pkg.TypesInfo, cc)
+		accepted[tv] = c.clauseKinds(dec, cc)
 	}
 	var kinds []string
 	for k := range enc {
@@ -555,8 +620,14 @@ func (c *Ctx) ReflKind() []core.Ob {
 		}
 		visiting := map[*ast.FuncDecl]bool{}
 		var walk func(info *types.Info, valObj types.Object, n ast.Node, kinds map[string]bool)
+		scopeOf := map[types.Object]ast.Node{valObj: ws.decl.Body}
 		walk = func(info *types.Info, valObj types.Object, node ast.Node, kinds map[string]bool) {
-			aliases := kindAliases(info, node, valObj)
+			// variables holding val.Kind(), declared anywhere in the function (kind := val.Kind() before the dispatch)
+			scope := scopeOf[valObj]
+			if scope == nil {
+				scope = node
+			}
+			aliases := kindAliases(info, scope, valObj)
 			ast.Inspect(node, func(x ast.Node) bool {
 				switch v := x.(type) {
 				case *ast.SwitchStmt:
@@ -595,6 +666,22 @@ func (c *Ctx) ReflKind() []core.Ob {
 						}
 						return false
 					}
+				case *ast.IfStmt:
+					// a condition that (also) tests the kind of the value: if elemKind == reflect.Uint8 && isSlice { val.Bytes() }
+					bd := boolDefs(info, scope)
+					thenF, elseF, any := kindCond(info, v.Cond, valObj, aliases, bd, 0)
+					if !any {
+						return true
+					}
+					if v.Init != nil {
+						walk(info, valObj, v.Init, kinds)
+					}
+					walk(info, valObj, v.Cond, kinds)
+					walk(info, valObj, v.Body, thenF(kinds))
+					if v.Else != nil {
+						walk(info, valObj, v.Else, elseF(kinds))
+					}
+					return false
 				case *ast.ForStmt:
 					// for val.Kind() == reflect.Interface { val = val.Elem() }: unwraps; afterwards the table kinds apply
 					if v.Cond != nil && isKindOf(info, v.Cond, valObj) {
@@ -632,6 +719,7 @@ func (c *Ctx) ReflKind() []core.Ob {
 								continue
 							}
 							visiting[hd] = true
+							scopeOf[pobj] = hn.Body
 							walk(hpk.TypesInfo, pobj, hn.Body, kinds)
 							visiting[hd] = false
 						}
@@ -677,6 +765,103 @@ func (c *Ctx) ReflKind() []core.Ob {
 		obs = append(obs, core.Ob{Rule: "R-REFLKIND", Key: "accessor-count", Status: core.Violated, Armed: true, Want: ">= 8 kind-restricted accessor calls found in writeValue", Got: fmt.Sprint(n)})
 	}
 	return obs
+}
+
+// kindCond reads a condition as a test of the kind of obj where it is one:
+// thenF / elseF narrow the set of kinds for the two branches; any reports
+// whether some part of the condition tests the kind at all. Parts that test
+// something else narrow nothing (sound: the sets only shrink where a kind test
+// must hold).
+func kindCond(info *types.Info, e ast.Expr, obj types.Object, aliases map[types.Object]bool, bdefs map[types.Object]ast.Expr, depth int) (thenF, elseF func(map[string]bool) map[string]bool, any bool) {
+	id := func(k map[string]bool) map[string]bool { return k }
+	if depth > 6 {
+		return id, id, false
+	}
+	only := func(set map[string]bool) func(map[string]bool) map[string]bool {
+		return func(k map[string]bool) map[string]bool {
+			out := map[string]bool{}
+			for x := range k {
+				if set[x] {
+					out[x] = true
+				}
+			}
+			return out
+		}
+	}
+	without := func(set map[string]bool) func(map[string]bool) map[string]bool {
+		return func(k map[string]bool) map[string]bool {
+			out := map[string]bool{}
+			for x := range k {
+				if !set[x] {
+					out[x] = true
+				}
+			}
+			return out
+		}
+	}
+	isKindExpr := func(x ast.Expr) bool {
+		x = ast.Unparen(x)
+		if i, ok := x.(*ast.Ident); ok {
+			return aliases[info.Uses[i]]
+		}
+		if call, ok := x.(*ast.CallExpr); ok {
+			if sel, ok := call.Fun.(*ast.SelectorExpr); ok && sel.Sel.Name == "Kind" {
+				if i, ok := ast.Unparen(sel.X).(*ast.Ident); ok && info.Uses[i] == obj {
+					return true
+				}
+			}
+		}
+		return false
+	}
+	switch v := ast.Unparen(e).(type) {
+	case *ast.Ident:
+		if def, ok := bdefs[info.Uses[v]]; ok {
+			return kindCond(info, def, obj, aliases, bdefs, depth+1)
+		}
+	case *ast.UnaryExpr:
+		if v.Op == token.NOT {
+			t, f, a := kindCond(info, v.X, obj, aliases, bdefs, depth+1)
+			return f, t, a
+		}
+	case *ast.BinaryExpr:
+		switch v.Op {
+		case token.EQL, token.NEQ:
+			l, r := v.X, v.Y
+			if _, isK := reflectKindName(info, l); isK {
+				l, r = r, l
+			}
+			k, isK := reflectKindName(info, r)
+			if !isK || !isKindExpr(l) {
+				return id, id, false
+			}
+			set := map[string]bool{k: true}
+			if v.Op == token.EQL {
+				return only(set), without(set), true
+			}
+			return without(set), only(set), true
+		case token.LAND:
+			t1, f1, a1 := kindCond(info, v.X, obj, aliases, bdefs, depth+1)
+			t2, f2, a2 := kindCond(info, v.Y, obj, aliases, bdefs, depth+1)
+			_, _ = f1, f2
+			// both hold in the then-branch; the else-branch knows only that one of them fails
+			return func(k map[string]bool) map[string]bool { return t2(t1(k)) }, id, a1 || a2
+		case token.LOR:
+			t1, f1, a1 := kindCond(info, v.X, obj, aliases, bdefs, depth+1)
+			t2, f2, a2 := kindCond(info, v.Y, obj, aliases, bdefs, depth+1)
+			// both fail in the else-branch; the then-branch is the union of what each allows
+			return func(k map[string]bool) map[string]bool {
+				out := map[string]bool{}
+				for x := range t1(k) {
+					out[x] = true
+				}
+				for x := range t2(k) {
+					out[x] = true
+				}
+				return out
+			}, func(k map[string]bool) map[string]bool { return f2(f1(k)) }, a1 || a2
+		}
+	}
+	return id, id, false
 }
 
 // kindAliases: variables defined once as obj.Kind() and never reassigned.
@@ -795,98 +980,127 @@ func loadIndex(v ssa.Value) (int64, bool) {
 	return constIntVal(ia.Index)
 }
 
-// Endian implements T-ENDIAN for the nbt and dynbt fixed-width readers/writers.
+// Endian implements T-ENDIAN for packages nbt and nbt/dynbt, by what the code
+// does rather than by the names of the fixed-width helpers: every use of an
+// encoding/binary byte order is the big-endian one, every integer assembled
+// from constant-indexed bytes of a buffer shifts byte k by 8*(n-1-k), and every
+// integer spread over constant-indexed bytes stores n >> 8*(n-1-k) into byte k.
 func (c *Ctx) Endian() []core.Ob {
 	var obs []core.Ob
-	for _, w := range []int64{2, 4, 8} {
-		bits := w * 8
-		for _, pkg := range []string{"nbt", "nbt/dynbt"} {
-			// ---- reader
-			rn := fmt.Sprintf("%s.(*Decoder).readInt%d", pkg, bits)
-			if pkg == "nbt/dynbt" {
-				rn = fmt.Sprintf("%s.readInt%d", pkg, bits)
-			}
-			if fn := c.Fn(rn); fn != nil {
-				o := core.Ob{Rule: "T-ENDIAN", Key: rn, Pos: c.P.Pos(fn.Pos()), Func: rn, Armed: true, Status: core.OK,
-					Want: fmt.Sprintf("byte k of the %d-byte buffer is shifted left by %d-8k (big-endian), or binary.BigEndian is used", w, bits-8)}
-				okk := false
-				// binary.BigEndian form
-				for _, ci := range callsIn(fn, func(n string, _ *ssa.CallCommon) bool { return strings.HasPrefix(n, "encoding/binary.(") }) {
-					n := calleeName(ci.Common())
-					if strings.HasPrefix(n, "encoding/binary.(bigEndian).Uint") && strings.HasSuffix(n, fmt.Sprint(bits)) {
-						okk = true
-					} else {
-						o.Status, o.Got = core.Violated, n+" is not the big-endian "+fmt.Sprint(bits)+"-bit reader"
-					}
+	total := 0
+	for _, fn := range c.Funcs() {
+		if !inPkgs(fn, "nbt", "nbt/dynbt") {
+			continue
+		}
+		name := core.FnName(fn)
+		k := 0
+		mk := func(pos token.Pos, want string) core.Ob {
+			k++
+			total++
+			return core.Ob{Rule: "T-ENDIAN", Key: fmt.Sprintf("%s#%d", name, k), Pos: c.P.Pos(pos), Func: name, Armed: true, Status: core.OK, Want: want}
+		}
+		// operands of a larger OR/ADD tree are not roots of their own
+		inner := map[ssa.Value]bool{}
+		for _, b := range fn.Blocks {
+			for _, in := range b.Instrs {
+				if bo, ok := in.(*ssa.BinOp); ok && (bo.Op == token.OR || bo.Op == token.ADD) {
+					inner[stripConv(bo.X)], inner[stripConv(bo.Y)] = true, true
 				}
-				if !okk && o.Status == core.OK {
-					for _, b := range fn.Blocks {
-						for _, in := range b.Instrs {
-							if r, ok := in.(*ssa.Return); ok && len(r.Results) > 0 {
-								pairs := map[int64]int64{}
-								if shiftPairsRead(r.Results[0], pairs) && int64(len(pairs)) == w {
-									okk = true
-									for k := int64(0); k < w; k++ {
-										if pairs[k] != bits-8-8*k {
-											okk = false
-											o.Status, o.Got = core.Violated, fmt.Sprintf("byte %d is shifted by %d, big-endian needs %d", k, pairs[k], bits-8-8*k)
-										}
-									}
-								}
-							}
-						}
-					}
-				}
-				if !okk && o.Status == core.OK {
-					o.Status, o.Got = core.Violated, "reader is not in a recognised big-endian form"
-				}
-				obs = append(obs, o)
-			} else if !(pkg == "nbt/dynbt" && bits == 64) {
-				obs = append(obs, core.Ob{Rule: "T-ENDIAN", Key: rn, Status: core.Violated, Armed: true, Want: "fixed-width reader exists", Got: "not found"})
-			}
-			// ---- writer
-			wn := fmt.Sprintf("%s.writeInt%d", pkg, bits)
-			if fn := c.Fn(wn); fn != nil {
-				o := core.Ob{Rule: "T-ENDIAN", Key: wn, Pos: c.P.Pos(fn.Pos()), Func: wn, Armed: true, Status: core.OK,
-					Want: fmt.Sprintf("output byte k is n >> %d-8k (big-endian)", bits-8)}
-				pairs := map[int64]int64{}
-				for _, b := range fn.Blocks {
-					for _, in := range b.Instrs {
-						st, ok := in.(*ssa.Store)
-						if !ok {
-							continue
-						}
-						ia, ok := st.Addr.(*ssa.IndexAddr)
-						if !ok {
-							continue
-						}
-						k, ok := constIntVal(ia.Index)
-						if !ok {
-							continue
-						}
-						v := stripConv(st.Val)
-						if bo, ok := v.(*ssa.BinOp); ok && bo.Op == token.SHR {
-							if s, ok := constIntVal(bo.Y); ok {
-								pairs[k] = s
-							}
-						} else if _, isParam := v.(*ssa.Parameter); isParam {
-							pairs[k] = 0
-						}
-					}
-				}
-				if int64(len(pairs)) != w {
-					o.Status, o.Got = core.Violated, fmt.Sprintf("%d byte stores recognised, want %d", len(pairs), w)
-				}
-				for k := int64(0); k < w && o.Status == core.OK; k++ {
-					if pairs[k] != bits-8-8*k {
-						o.Status, o.Got = core.Violated, fmt.Sprintf("output byte %d is n >> %d, big-endian needs %d", k, pairs[k], bits-8-8*k)
-					}
-				}
-				obs = append(obs, o)
-			} else if !(pkg == "nbt/dynbt" && bits == 64) {
-				obs = append(obs, core.Ob{Rule: "T-ENDIAN", Key: wn, Status: core.Violated, Armed: true, Want: "fixed-width writer exists", Got: "not found"})
 			}
 		}
+		stores := map[ssa.Value]map[int64]int64{}
+		storePos := map[ssa.Value]token.Pos{}
+		for _, b := range fn.Blocks {
+			for _, in := range b.Instrs {
+				switch x := in.(type) {
+				case ssa.CallInstruction:
+					n := calleeName(x.Common())
+					switch {
+					case strings.HasPrefix(n, "encoding/binary.(bigEndian)."):
+						o := mk(x.Pos(), "encoding/binary is used with the big-endian byte order")
+						o.Got = n
+						obs = append(obs, o)
+					case strings.HasPrefix(n, "encoding/binary.(littleEndian)."):
+						o := mk(x.Pos(), "encoding/binary is used with the big-endian byte order")
+						o.Status, o.Got = core.Violated, n+": NBT integers are big-endian"
+						obs = append(obs, o)
+					case n == "encoding/binary.Read" || n == "encoding/binary.Write":
+						o := mk(x.Pos(), "encoding/binary is used with the big-endian byte order")
+						if mi, ok := x.Common().Args[1].(*ssa.MakeInterface); !ok || !strings.HasSuffix(mi.X.Type().String(), "bigEndian") {
+							o.Status, o.Got = core.Violated, n+" with a byte order other than binary.BigEndian"
+						}
+						obs = append(obs, o)
+					}
+				case *ssa.BinOp:
+					if (x.Op != token.OR && x.Op != token.ADD) || inner[x] {
+						continue
+					}
+					pairs := map[int64]int64{}
+					if !shiftPairsRead(x, pairs) || len(pairs) < 2 {
+						continue
+					}
+					n := int64(len(pairs))
+					o := mk(x.Pos(), fmt.Sprintf("byte k of the %d bytes read is shifted left by 8*(%d-k) (big-endian)", n, n-1))
+					for i := int64(0); i < n; i++ {
+						if sh, ok := pairs[i]; !ok || sh != 8*(n-1-i) {
+							o.Status, o.Got = core.Violated, fmt.Sprintf("byte %d is shifted by %d, big-endian needs %d", i, pairs[i], 8*(n-1-i))
+							break
+						}
+					}
+					obs = append(obs, o)
+				case *ssa.Store:
+					ia, ok := x.Addr.(*ssa.IndexAddr)
+					if !ok {
+						continue
+					}
+					idx, ok := constIntVal(ia.Index)
+					if !ok {
+						continue
+					}
+					v := stripConv(x.Val)
+					sh := int64(-1)
+					if bo, ok := v.(*ssa.BinOp); ok && bo.Op == token.SHR {
+						if s, ok := constIntVal(bo.Y); ok && s%8 == 0 {
+							sh = s
+						}
+					} else if _, isParam := v.(*ssa.Parameter); isParam && v != x.Val {
+						sh = 0 // byte(n): the low byte
+					}
+					if sh < 0 {
+						continue
+					}
+					if stores[ia.X] == nil {
+						stores[ia.X] = map[int64]int64{}
+						storePos[ia.X] = x.Pos()
+					}
+					stores[ia.X][idx] = sh
+				}
+			}
+		}
+		var bases []ssa.Value
+		for b := range stores {
+			bases = append(bases, b)
+		}
+		sort.Slice(bases, func(i, j int) bool { return storePos[bases[i]] < storePos[bases[j]] })
+		for _, base := range bases {
+			pairs := stores[base]
+			if len(pairs) < 2 {
+				continue
+			}
+			n := int64(len(pairs))
+			o := mk(storePos[base], fmt.Sprintf("output byte k of the %d bytes written is n >> 8*(%d-k) (big-endian)", n, n-1))
+			for i := int64(0); i < n; i++ {
+				if sh, ok := pairs[i]; !ok || sh != 8*(n-1-i) {
+					o.Status, o.Got = core.Violated, fmt.Sprintf("output byte %d is n >> %d, big-endian needs %d", i, pairs[i], 8*(n-1-i))
+					break
+				}
+			}
+			obs = append(obs, o)
+		}
+	}
+	if total < 6 {
+		obs = append(obs, core.Ob{Rule: "T-ENDIAN", Key: "sites", Status: core.Violated, Armed: true,
+			Want: "the fixed-width integer readers and writers of nbt and nbt/dynbt are recognised (>= 6 byte-order sites)", Got: fmt.Sprintf("%d sites", total)})
 	}
 	return obs
 }
